@@ -1,7 +1,8 @@
 (* C06 — The verdict follows the documented precedence, whatever the rule order.
    Only statements here; every proof is [exact <lemma>]. *)
 From Coq Require Import List Permutation.
-From UF Require Import Base.Bytes Model.Options Model.NetRule Model.Result Proofs.C07Proofs Proofs.C08Proofs Proofs.C06Proofs.
+From UF Require Import Base.Bytes Model.Options Model.NetRule Model.Request Model.Result Model.Storage Model.Engines
+  Proofs.C07Proofs Proofs.C08Proofs Proofs.C06Proofs Proofs.C06Set Proofs.EndToEnd.
 Import ListNotations.
 
 (* web: the class of GetBasicResult(NewMatchingResult(rules, sourceRules)) equals the order-free
@@ -53,3 +54,27 @@ Theorem C06_candidate_properties : forall rs src b, In b (candidates rs src) ->
   /\ (forall bf, In bf rs -> is_bad bf = true -> ~ twin bf b).
 Proof. exact candidate_properties. Qed.
 Print Assumptions C06_candidate_properties.
+
+(* the verdict depends on the SET of matching rules only: a rule reported twice, or elsewhere in the list, changes
+   nothing *)
+Theorem C06_web_set : forall rs rs' src src', same_set rs rs' -> same_set src src' ->
+  spec_web_verdict rs src = spec_web_verdict rs' src'.
+Proof. exact web_verdict_same_set. Qed.
+Print Assumptions C06_web_set.
+Theorem C06_dns_set : forall rs rs', same_set rs rs' -> spec_dns_verdict rs = spec_dns_verdict rs'.
+Proof. exact dns_verdict_same_set. Qed.
+Print Assumptions C06_dns_set.
+
+(* end to end (storage, engine construction for EVERY hash function, lookup, NewMatchingResult, GetBasicResult):
+   Engine.MatchRequest gives the order-free verdict over the rules of the lists that match the request and over
+   those that match the referrer as a document request — with no assumption but the domain of the storage index
+   and that no rule text occurs twice *)
+Theorem C06_web_end_to_end : forall hash psl s scanned q,
+  storage_ok s -> storage_scan s = Ok scanned ->
+  NoDup (map (fun ri => nr_text (fst ri)) (net_rules_of scanned)) ->
+  verdict_of (get_basic_result (engine_match_request hash psl (retr_net_of s) (build_net hash (net_rules_of scanned)) q)) =
+  spec_web_verdict (filter (fun f => rmatch psl f q) (map fst (net_rules_of scanned)))
+                   (if isnil (rq_source_url q) then []
+                    else filter (fun f => rmatch psl f (new_request psl (rq_source_url q) [] TypeDocument)) (map fst (net_rules_of scanned))).
+Proof. exact web_verdict_end_to_end. Qed.
+Print Assumptions C06_web_end_to_end.
